@@ -27,7 +27,7 @@ for pid in ids:
     })
 m = {
     "version": 1,
-    "setup_cmd": "cd /verif/harness && cargo build --offline --quiet --profile checked && cargo build --offline --quiet --release && cd /verif/lean && lake build idsp_model IdspModel.All",
+    "setup_cmd": "cd /verif/harness && cargo build --offline --quiet --profile checked && cargo build --offline --quiet --release && /verif/lean/build_all.sh",
     "hooks": {
         "guard": "--cfg idsp_verif",
         "enable": "harness/.cargo/config.toml sets build.rustflags = [\"--cfg\", \"idsp_verif\"]; the harness depends on idsp by path = /repo, so every check rebuilds the crate from the working tree with the hooks on",
